@@ -119,3 +119,43 @@ def truth_guarded(g, target_id, var, want_true=True, skip=("exc",)):
         defs = [g.entry.id]
     reach = g.reach(defs, skip_labels=skip, edge_filter=filt)
     return target_id not in reach
+
+
+def flag_states(g, flags, skip=("exc",)):
+    """Path-sensitive analysis of Boolean locals that are only assigned the constants True/False: for every CFG node the
+    set of possible valuations (tuple of True/False/None per flag, None = not assigned yet) on entry to the node.
+    Condition nodes that test a flag (`f`, `not f`, after the builder's short-circuit decomposition) filter the valuations."""
+    flags = list(flags)
+    idx = {f: i for i, f in enumerate(flags)}
+
+    def step(node, st):
+        a = node.ast
+        if isinstance(a, ast.Assign) and len(a.targets) == 1 and isinstance(a.targets[0], ast.Name) and a.targets[0].id in idx \
+                and isinstance(a.value, ast.Constant) and isinstance(a.value.value, bool):
+            st = list(st)
+            st[idx[a.targets[0].id]] = a.value.value
+            return tuple(st)
+        return st
+
+    def ok(node, lab, st):
+        if node.kind == "cond" and isinstance(node.ast, ast.Name) and node.ast.id in idx and lab in ("T", "F"):
+            v = st[idx[node.ast.id]]
+            if v is None:
+                return True
+            return (lab == "T") == bool(v)
+        return True
+
+    IN = {g.entry.id: {tuple([None] * len(flags))}}
+    work = [g.entry.id]
+    while work:
+        a = work.pop()
+        for st in list(IN[a]):
+            out = step(g.nodes[a], st)
+            for b, lab in g.succ[a]:
+                if lab in skip or not ok(g.nodes[a], lab, out):
+                    continue
+                cur = IN.setdefault(b, set())
+                if out not in cur:
+                    cur.add(out)
+                    work.append(b)
+    return IN, idx
